@@ -107,7 +107,7 @@ def gaussian_gradient(c, param, form, n):
 
 
 # ------------------------------------------------------------------------------------------ chain rule
-def likelihood_chain(c, kind, m=2, n=2):
+def likelihood_chain(c, kind, m=2, n=2, noise='scalar'):
     """Gaussian data distribution with forward model F: gradient of the likelihood w.r.t. x is J^T d logp/d mu"""
     x = c.vec('x', n); y = c.vec('y', m); s = c.real('s', pos=True)
     if kind == 'matrix':
@@ -121,7 +121,14 @@ def likelihood_chain(c, kind, m=2, n=2):
     elif kind == 'gradient':
         A = c.mat('A', m, n)
         model = cuqi.model.Model(lambda v: A @ (v ** 2), m, n, gradient=lambda direction, v: (A * (2 * v)).T @ direction)
-    data_dist = Gaussian(model, s)
+    if noise == 'scalar': data_dist = Gaussian(model, s)
+    elif noise == 'vector': data_dist = Gaussian(model, c.vec('nv', m, pos=True))
+    elif noise == 'dense_cov':
+        G = c.lower('ng', m); data_dist = Gaussian(model, cov=G @ G.T)                     # correlated noise
+    elif noise == 'dense_prec':
+        G = c.lower('ng', m); data_dist = Gaussian(model, prec=G @ G.T)
+    elif noise == 'triangular_sqrtprec':
+        data_dist = Gaussian(model, sqrtprec=c.lower('nr', m).T)                           # a non-symmetric square root
     L = data_dist.to_likelihood(y) if hasattr(data_dist, 'to_likelihood') else data_dist(y)
     g = L.gradient(x)
     c.holds('gradient_is_a_vector_of_the_variable_shape', np.shape(g) == (n,), note=f"shape {np.shape(g)}")
@@ -211,6 +218,11 @@ def jobs(tier):
         J.append(Job(f'Likelihood.gradient:chain_rule:{kind}', lambda c, k=kind: likelihood_chain(c, k), 'Pbox',
                      ['cuqi.likelihood._likelihood:Likelihood._gradient', f'{D}._gaussian:Gaussian._gradient', 'cuqi.model._model:Model.gradient',
                       f'{D}._posterior:Posterior._gradient'], rtol=1e-4, timeout=300))
+        for noise in ('vector', 'dense_cov', 'dense_prec', 'triangular_sqrtprec'):
+            if q and kind in ('funcs', 'gradient'): continue
+            J.append(Job(f'Likelihood.gradient:chain_rule:{kind}:noise={noise}', lambda c, k=kind, nz=noise: likelihood_chain(c, k, 2, 2, nz), 'Pbox',
+                         ['cuqi.likelihood._likelihood:Likelihood._gradient', f'{D}._gaussian:Gaussian._gradient', 'cuqi.model._model:Model.gradient',
+                          f'{D}._posterior:Posterior._gradient'], rtol=1e-4, timeout=300))
     for kind in ('Gaussian:cov', 'Gaussian:prec', 'GMRF', 'CMRF', 'Cauchy', 'conditional_GMRF'):
         J.append(Job(f'history:gradient_after_parameter_reassignment:{kind}', lambda c, k=kind: reassignment_history(c, k), 'Pbox', Dg, rtol=1e-4))
     J.append(Job('UserDefinedDistribution.gradient', userdefined, 'Pbox', [f'{D}._custom:UserDefinedDistribution.gradient']))
